@@ -32,6 +32,7 @@ func Repo() string {
 
 func Harness() string { return filepath.Join(Root(), "harness") }
 func SpecDir() string { return filepath.Join(Root(), "spec") }
+
 // Tag isolates a run (scratch dirs, generated probe packages, evidence) so
 // that several runs - e.g. against scratch worktrees via VERIF_REPO - can
 // proceed side by side. Empty for the registered checks.
